@@ -497,4 +497,402 @@ theorem accRel_seed (t : Table) (a : Fit.Accum.Acc) (rs : Runs) (h : AccRel t a 
                 h2, by rw [h1]; exact hv32, hv32, fun _ _ => by rw [h1]⟩
             · exact others T hsp.symm m' f' hk hne
 
+/-! ### the component loop -/
+
+/-- `c` is a component of a field or sub-field of message `mesg` in the table -/
+def Reach (t : Table) (mesg : Nat) (c : Comp) : Prop :=
+  ∃ e, (t.filter (·.1 == mesg)).head? = some e ∧ c ∈ e.2.flatMap allComps
+
+/-- what the refinement needs of the profile: widths of at most 32 bits (a uint32 is pulled), and one width per
+accumulated destination -/
+def CompOK (t : Table) (mesg : Nat) (c : Comp) : Prop :=
+  c.bits ≤ 32 ∧ (c.accumulate = true → ∀ c' ∈ accInto t mesg c.fieldNum, c'.bits = c.bits)
+
+theorem reach_acc (t : Table) (mesg : Nat) (c : Comp) (h : Reach t mesg c) (ha : c.accumulate = true) :
+    c ∈ accInto t mesg c.fieldNum := by
+  obtain ⟨e, he, hc⟩ := h
+  unfold accInto
+  rw [he]
+  exact List.mem_filter.mpr ⟨hc, by simp [ha]⟩
+
+theorem reach_of_fieldOf (t : Table) (mesg n : Nat) (fl : Fld) (h : fieldOf t mesg n = some fl) :
+    ∀ c ∈ allComps fl, Reach t mesg c := by
+  intro c hc
+  unfold fieldOf at h
+  cases he : (t.filter (·.1 == mesg)).head? with
+  | none => simp [he] at h
+  | some e =>
+    simp only [he, Option.bind_some] at h
+    have hmem : fl ∈ e.2 := by
+      have := List.mem_of_mem_head? h
+      exact (List.mem_filter.mp this).1
+    exact ⟨e, he, List.mem_flatMap.mpr ⟨fl, hmem, hc⟩⟩
+
+theorem reach_dest (t : Table) (mesg n : Nat) :
+    (∀ c ∈ (destOf t mesg n).comps, Reach t mesg c) ∧
+      (∀ sf ∈ (destOf t mesg n).subs, ∀ c ∈ sf.comps, Reach t mesg c) := by
+  unfold destOf
+  cases h : fieldOf t mesg n with
+  | none => simp
+  | some fl =>
+    simp only
+    constructor
+    · intro c hc; exact reach_of_fieldOf t mesg n fl h c (List.mem_append_left _ hc)
+    · intro sf hsf c hc
+      exact reach_of_fieldOf t mesg n fl h c (List.mem_append_right _ (List.mem_flatMap.mpr ⟨sf, hsf, hc⟩))
+
+theorem subFieldOf_mem (fields : List Field) (subs : List SubF) (sf : SubF) (h : subFieldOf fields subs = some sf) :
+    sf ∈ subs := by
+  unfold subFieldOf at h
+  exact (List.mem_filter.mp (List.mem_of_mem_head? h)).1
+
+theorem reach_compsOf (t : Table) (mesg : Nat) (fields : List Field) (f : Field) :
+    ∀ c ∈ compsOf t mesg fields f, Reach t mesg c := by
+  intro c hc
+  unfold compsOf at hc
+  cases hb : f.base with
+  | none => simp [hb] at hc
+  | some b =>
+    simp only [hb] at hc
+    cases hl : fieldOf t mesg b.num with
+    | none => simp [hl] at hc
+    | some fl =>
+      simp only [hl] at hc
+      split at hc
+      · rename_i sf hsf
+        exact reach_of_fieldOf t mesg b.num fl hl c
+          (List.mem_append_right _ (List.mem_flatMap.mpr ⟨sf, subFieldOf_mem _ _ _ hsf, hc⟩))
+      · exact reach_of_fieldOf t mesg b.num fl hl c (List.mem_append_left _ hc)
+
+/-- the model state and the specification state carry the same fields and related tables -/
+def Rel (t : Table) (st : St) (s : S) : Prop := st.fields = s.fields ∧ AccRel t st.acc s.runs
+
+/-- the components the destination just written expands with -/
+def nextComps (fields : List Field) (d : Dest) : List Comp :=
+  match subFieldOf fields d.subs with
+  | some sf => sf.comps
+  | none => d.comps
+
+/-- the value written for a slice or total `T` -/
+def valueOf (cv : CV) (c : Comp) (d : Dest) (T : Nat) : Value :=
+  convertU32 (cv T c.scale c.offset d.base.scale d.base.offset) d.base.baseType
+
+/-- one iteration of the component loop of the code, written with the specification's look-ups -/
+theorem compLoop_cons_spec (cv : CV) (t : Table) (mesg fuel : Nat) (multi : Bool) (st : St) (ws : List Nat) (c : Comp)
+    (rest : List Comp) :
+    compLoop cv t mesg fuel multi st ws (c :: rest) =
+      if (Fit.Bits.pull ws c.bits).1 = 0 ∧ multi = true then st
+      else
+        compLoop cv t mesg fuel multi
+          (expandComponents cv t mesg fuel
+            ⟨(if c.accumulate then Fit.Accum.accumulate st.acc mesg c.fieldNum (Fit.Bits.pull ws c.bits).1 c.bits
+                else ((Fit.Bits.pull ws c.bits).1, st.acc)).2,
+              put st.fields c.fieldNum (destOf t mesg c.fieldNum) (valueOf cv c (destOf t mesg c.fieldNum)
+                (if c.accumulate then Fit.Accum.accumulate st.acc mesg c.fieldNum (Fit.Bits.pull ws c.bits).1 c.bits
+                  else ((Fit.Bits.pull ws c.bits).1, st.acc)).1)⟩
+            (valueOf cv c (destOf t mesg c.fieldNum)
+              (if c.accumulate then Fit.Accum.accumulate st.acc mesg c.fieldNum (Fit.Bits.pull ws c.bits).1 c.bits
+                else ((Fit.Bits.pull ws c.bits).1, st.acc)).1)
+            (destOf t mesg c.fieldNum).base.baseType
+            (nextComps (put st.fields c.fieldNum (destOf t mesg c.fieldNum) (valueOf cv c (destOf t mesg c.fieldNum)
+                (if c.accumulate then Fit.Accum.accumulate st.acc mesg c.fieldNum (Fit.Bits.pull ws c.bits).1 c.bits
+                  else ((Fit.Bits.pull ws c.bits).1, st.acc)).1)) (destOf t mesg c.fieldNum)))
+          (Fit.Bits.pull ws c.bits).2 rest := by
+  rw [compLoop]
+  obtain ⟨d1, d2, d3⟩ := destOf_eq t mesg c.fieldNum
+  simp only [nextComps, valueOf, put_eq, subFieldOf_eq, d1, d2, d3]
+  rfl
+
+/-- one step of the specification's slices -/
+theorem slices_cons (cv : CV) (t : Table) (mesg fuel : Nat) (multi : Bool) (s : S) (n off : Nat) (c : Comp)
+    (rest : List Comp) :
+    slices cv t mesg fuel multi s n off (c :: rest) =
+      if sliceAt n off c.bits = 0 ∧ multi = true then some s
+      else
+        (if c.accumulate then sample s.runs mesg c (sliceAt n off c.bits) else some (sliceAt n off c.bits, s.runs)).bind
+          fun p =>
+            (expandValue cv t mesg fuel
+              ⟨p.2, put s.fields c.fieldNum (destOf t mesg c.fieldNum) (valueOf cv c (destOf t mesg c.fieldNum) p.1)⟩
+              (valueOf cv c (destOf t mesg c.fieldNum) p.1) (destOf t mesg c.fieldNum).base.baseType
+              (nextComps (put s.fields c.fieldNum (destOf t mesg c.fieldNum) (valueOf cv c (destOf t mesg c.fieldNum) p.1))
+                (destOf t mesg c.fieldNum))).bind
+              fun s1 => slices cv t mesg fuel multi s1 n (off + c.bits) rest := by
+  rw [slices]
+  simp only
+  by_cases h1 : sliceAt n off c.bits = 0 ∧ multi = true
+  · rw [if_pos h1, if_pos h1]
+  · rw [if_neg h1, if_neg h1]
+    generalize (if c.accumulate then sample s.runs mesg c (sliceAt n off c.bits) else some (sliceAt n off c.bits, s.runs)) = o
+    cases o with
+    | none => rfl
+    | some p =>
+      obtain ⟨T, runs⟩ := p
+      simp only [Option.bind_some]
+      unfold nextComps valueOf
+      cases expandValue cv t mesg fuel _ _ _ _ <;> rfl
+
+section sim
+variable (cv : CV) (t : Table) (mesg : Nat) (hP : ∀ c, Reach t mesg c → CompOK t mesg c)
+include hP
+
+theorem loop_of_expand (fuel : Nat)
+    (hE : ∀ (st : St) (s : S) (v : Value) (bt : Nat) (comps : List Comp) (s' : S), Rel t st s →
+      (∀ c ∈ comps, Reach t mesg c) → expandValue cv t mesg fuel s v bt comps = some s' →
+      Rel t (expandComponents cv t mesg fuel st v bt comps) s') :
+    ∀ (comps : List Comp) (multi : Bool) (st : St) (s : S) (ws : List Nat) (n off : Nat) (s' : S), Rel t st s →
+      (∀ c ∈ comps, Reach t mesg c) → BitsRel ws n off → slices cv t mesg fuel multi s n off comps = some s' →
+      Rel t (compLoop cv t mesg fuel multi st ws comps) s' := by
+  intro comps
+  induction comps with
+  | nil =>
+    intro multi st s ws n off s' hrel _ _ hs
+    rw [slices] at hs
+    rw [compLoop]
+    cases hs; exact hrel
+  | cons c rest ih =>
+    intro multi st s ws n off s' hrel hreach hbits hs
+    have hc : Reach t mesg c := hreach c (by simp)
+    have hrest : ∀ c' ∈ rest, Reach t mesg c' := fun c' hc' => hreach c' (by simp [hc'])
+    obtain ⟨hw, hrow⟩ := hP c hc
+    obtain ⟨hpull, hbits'⟩ := bitsRel_pull ws n off c.bits hbits hw
+    obtain ⟨hf, hacc⟩ := hrel
+    rw [slices_cons] at hs
+    rw [compLoop_cons_spec]
+    simp only [hpull]
+    by_cases hbrk : sliceAt n off c.bits = 0 ∧ multi = true
+    · rw [if_pos hbrk] at hs ⊢
+      cases hs; exact ⟨hf, hacc⟩
+    · rw [if_neg hbrk] at hs ⊢
+      have hlt : sliceAt n off c.bits < 2 ^ c.bits := Nat.mod_lt _ (by positivity)
+      obtain ⟨⟨T, runs⟩, hsm, hs2⟩ := Option.bind_eq_some_iff.mp hs
+      obtain ⟨s1, hex, hs3⟩ := Option.bind_eq_some_iff.mp hs2
+      -- the value handed to the arithmetic and the tables after it
+      have hav : (if c.accumulate then Fit.Accum.accumulate st.acc mesg c.fieldNum (sliceAt n off c.bits) c.bits
+            else (sliceAt n off c.bits, st.acc)).1 = T ∧
+          AccRel t (if c.accumulate then Fit.Accum.accumulate st.acc mesg c.fieldNum (sliceAt n off c.bits) c.bits
+            else (sliceAt n off c.bits, st.acc)).2 runs := by
+        by_cases ha : c.accumulate = true
+        · simp only [ha, if_true] at hsm ⊢
+          exact accRel_sample t st.acc s.runs hacc mesg c (reach_acc t mesg c hc ha) (hrow ha) hw _ hlt T runs hsm
+        · simp only [ha, Bool.false_eq_true, if_false, Option.some.injEq, Prod.mk.injEq] at hsm ⊢
+          obtain ⟨rfl, rfl⟩ := hsm
+          exact ⟨rfl, hacc⟩
+      obtain ⟨e2, e3⟩ := hav
+      rw [e2, hf]
+      simp only at hex
+      have hreach' : ∀ c' ∈ nextComps (put s.fields c.fieldNum (destOf t mesg c.fieldNum) (valueOf cv c (destOf t mesg c.fieldNum) T))
+          (destOf t mesg c.fieldNum), Reach t mesg c' := by
+        intro c' hc'
+        unfold nextComps at hc'
+        obtain ⟨g1, g2⟩ := reach_dest t mesg c.fieldNum
+        split at hc'
+        · rename_i sf hsf; exact g2 sf (subFieldOf_mem _ _ _ hsf) c' hc'
+        · exact g1 c' hc'
+      have hrel1 := hE ⟨_, _⟩ ⟨runs, _⟩ _ _ _ s1 ⟨rfl, e3⟩ hreach' hex
+      exact ih multi _ s1 _ n (off + c.bits) s' hrel1 hrest hbits' hs3
+
+omit hP in
+theorem expand_of_loop (fuel : Nat)
+    (hL : ∀ (comps : List Comp) (multi : Bool) (st : St) (s : S) (ws : List Nat) (n off : Nat) (s' : S), Rel t st s →
+      (∀ c ∈ comps, Reach t mesg c) → BitsRel ws n off → slices cv t mesg fuel multi s n off comps = some s' →
+      Rel t (compLoop cv t mesg fuel multi st ws comps) s') :
+    ∀ (st : St) (s : S) (v : Value) (bt : Nat) (comps : List Comp) (s' : S), Rel t st s →
+      (∀ c ∈ comps, Reach t mesg c) → expandValue cv t mesg (fuel + 1) s v bt comps = some s' →
+      Rel t (expandComponents cv t mesg (fuel + 1) st v bt comps) s' := by
+  intro st s v bt comps s' hrel hreach hs
+  rw [expandValue] at hs
+  rw [expandComponents]
+  by_cases h1 : comps.isEmpty = true
+  · rw [if_pos h1] at hs ⊢; cases hs; exact hrel
+  rw [if_neg h1] at hs ⊢
+  by_cases h2 : (!valid v bt) = true
+  · rw [if_pos h2] at hs ⊢; cases hs; exact hrel
+  rw [if_neg h2] at hs ⊢
+  cases hc : container v with
+  | noBits =>
+    rw [hc] at hs
+    rw [container_noBits v hc]
+    cases hs; exact hrel
+  | unknown => rw [hc] at hs; cases hs
+  | bits n =>
+    rw [hc] at hs
+    obtain ⟨ws, hm, hb⟩ := container_bits v n hc
+    rw [hm]
+    exact hL comps _ st s ws n 0 s' hrel hreach hb hs
+
+/-- **the code's expansion of one containing value refines the specification's** -/
+theorem expand_refines (fuel : Nat) :
+    ∀ (st : St) (s : S) (v : Value) (bt : Nat) (comps : List Comp) (s' : S), Rel t st s →
+      (∀ c ∈ comps, Reach t mesg c) → expandValue cv t mesg fuel s v bt comps = some s' →
+      Rel t (expandComponents cv t mesg fuel st v bt comps) s' := by
+  induction fuel with
+  | zero =>
+    intro st s v bt comps s' hrel _ hs
+    rw [expandValue] at hs
+    rw [expandComponents]
+    cases hs; exact hrel
+  | succ f ih => exact expand_of_loop cv t mesg f (loop_of_expand cv t mesg hP f ih)
+
+/-- the loop over the wire positions -/
+theorem expandAll_refines :
+    ∀ (k i : Nat) (st : St) (s s' : S), Rel t st s → expandFields cv t mesg s k i = some s' →
+      Rel t (expandAll cv t mesg st k i) s' := by
+  intro k
+  induction k with
+  | zero =>
+    intro i st s s' hrel hs
+    rw [expandFields] at hs
+    rw [expandAll]
+    cases hs; exact hrel
+  | succ k ih =>
+    intro i st s s' hrel hs
+    rw [expandFields] at hs
+    rw [expandAll]
+    obtain ⟨hf, hacc⟩ := hrel
+    rw [hf]
+    cases hfi : s.fields[i]? with
+    | none => rw [hfi] at hs; cases hs; exact ⟨hf, hacc⟩
+    | some f =>
+      rw [hfi] at hs
+      simp only at hs ⊢
+      cases hex : expandValue cv t mesg depth s f.value ((f.base.map (·.baseType)).getD 0) (compsOf t mesg s.fields f) with
+      | none => rw [hex] at hs; cases hs
+      | some s1 =>
+        rw [hex] at hs
+        simp only at hs
+        have h1 := expand_refines cv t mesg hP depth st s f.value _ _ s1 ⟨hf, hacc⟩ (reach_compsOf t mesg s.fields f) hex
+        rw [compsOf_eq] at h1
+        exact ih (i + 1) _ s1 s' h1 hs
+
+end sim
+
+/-! ### messages and sequences -/
+
+/-- every component of the table is at most 32 bits wide and every accumulated destination has one width -/
+def TableOK (t : Table) : Prop := ∀ mesg c, Reach t mesg c → CompOK t mesg c
+
+/-- no accumulating component into a wire field of the message counts in another unit than the field -/
+def SameUnit (t : Table) (m : Message) : Prop :=
+  ∀ f ∈ m.fields, ∀ b, f.base = some b → ∀ c ∈ accInto t m.num b.num,
+    c.scale = (destOf t m.num b.num).base.scale ∧ c.offset = (destOf t m.num b.num).base.offset
+
+/-- the decidable form of `TableOK` (evaluated on the regenerated profile) -/
+def tableOK (t : Table) : Bool :=
+  t.all fun e => (e.2.flatMap allComps).all fun c =>
+    decide (c.bits ≤ 32) && (!c.accumulate || (accInto t e.1 c.fieldNum).all fun c' => c'.bits == c.bits)
+
+theorem tableOK_spec (t : Table) (h : tableOK t = true) : TableOK t := by
+  intro mesg c ⟨e, he, hc⟩
+  have hmem := List.mem_of_mem_head? he
+  obtain ⟨het, hnum⟩ := List.mem_filter.mp hmem
+  have hnum : e.1 = mesg := by simpa using hnum
+  unfold tableOK at h
+  have h1 := (List.all_eq_true.mp h) e het
+  have h2 := (List.all_eq_true.mp h1) c hc
+  simp only [Bool.and_eq_true, decide_eq_true_eq, Bool.or_eq_true, Bool.not_eq_true'] at h2
+  refine ⟨h2.1, fun ha c' hc' => ?_⟩
+  rcases h2.2 with h3 | h3
+  · rw [ha] at h3; cases h3
+  · rw [hnum] at h3
+    have := (List.all_eq_true.mp h3) c' hc'
+    simpa using this
+
+theorem sameUnit_of (t : Table) (ms : List Message) (h : seedsOtherUnit t ms = false) : ∀ m ∈ ms, SameUnit t m := by
+  intro m hm f hf b hb c hc
+  unfold seedsOtherUnit at h
+  rw [List.any_eq_false] at h
+  have h1 := h m hm
+  rw [Bool.not_eq_true, List.any_eq_false] at h1
+  have h2 := h1 f hf
+  simp only [hb] at h2
+  rw [Bool.not_eq_true, List.any_eq_false] at h2
+  have h3 := h2 c hc
+  simpa using h3
+
+theorem seedAll_refines (t : Table) (mesg : Nat) :
+    ∀ (fs : List Field) (a : Fit.Accum.Acc) (rs rs' : Runs), AccRel t a rs → seedAll t mesg rs fs = some rs' →
+      (∀ f ∈ fs, ∀ b, f.base = some b → ∀ c ∈ accInto t mesg b.num,
+        c.scale = (destOf t mesg b.num).base.scale ∧ c.offset = (destOf t mesg b.num).base.offset) →
+      AccRel t (fs.foldl (fun a f =>
+        match f.base with
+        | some b => if b.accumulate then collectValues a mesg b.num f.value else a
+        | none => a) a) rs' := by
+  intro fs
+  induction fs with
+  | nil => intro a rs rs' h hs _; rw [seedAll] at hs; cases hs; exact h
+  | cons f rest ih =>
+    intro a rs rs' h hs hu
+    rw [seedAll] at hs
+    cases h1 : seedField t mesg rs f with
+    | none => rw [h1] at hs; cases hs
+    | some rs1 =>
+      rw [h1] at hs
+      simp only at hs
+      simp only [List.foldl_cons]
+      exact ih _ rs1 rs' (accRel_seed t a rs h mesg f rs1 h1 (hu f (by simp))) hs
+        (fun f' hf' => hu f' (by simp [hf']))
+
+/-- **one message**: the tail of `decodeFields` computes what the specification demands -/
+theorem tail_refines (cv : CV) (t : Table) (hT : TableOK t) (acc : Fit.Accum.Acc) (rs rs' : Runs) (m m' : Message)
+    (h : AccRel t acc rs) (hu : SameUnit t m) (hs : specTail cv t rs m = some (rs', m')) :
+    (decodeTail cv t true acc m).2 = m' ∧ AccRel t (decodeTail cv t true acc m).1 rs' := by
+  unfold specTail at hs
+  cases h1 : seedAll t m.num rs m.fields with
+  | none => rw [h1] at hs; cases hs
+  | some rs1 =>
+    rw [h1] at hs
+    simp only at hs
+    cases h2 : expandFields cv t m.num ⟨rs1, m.fields⟩ m.fields.length 0 with
+    | none => rw [h2] at hs; cases hs
+    | some s =>
+      rw [h2] at hs
+      simp only [Option.some.injEq, Prod.mk.injEq] at hs
+      obtain ⟨hr, hm⟩ := hs
+      have hseed := seedAll_refines t m.num m.fields acc rs rs1 h h1 hu
+      have hrel := expandAll_refines cv t m.num (hT m.num) m.fields.length 0
+        ⟨_, m.fields⟩ ⟨rs1, m.fields⟩ s ⟨rfl, hseed⟩ h2
+      unfold decodeTail
+      simp only [Bool.not_true, Bool.false_eq_true, if_false]
+      obtain ⟨g1, g2⟩ := hrel
+      refine ⟨?_, by rw [← hr]; exact g2⟩
+      rw [← hm]
+      exact congrArg (fun fs => ({ m with fields := fs } : Message)) g1
+
+/-- **one sequence** -/
+theorem seq_refines (cv : CV) (t : Table) (hT : TableOK t) :
+    ∀ (ms : List Message) (acc : Fit.Accum.Acc) (rs : Runs) (done out : List Message), AccRel t acc rs →
+      (∀ m ∈ ms, SameUnit t m) → specSeqFrom cv t rs ms = some out →
+      (ms.foldl (fun (s : Fit.Accum.Acc × List Message) m =>
+        let r := decodeTail cv t true s.1 m
+        (r.1, s.2 ++ [r.2])) (acc, done)).2 = done ++ out := by
+  intro ms
+  induction ms with
+  | nil => intro acc rs done out _ _ hs; rw [specSeqFrom] at hs; cases hs; simp
+  | cons m rest ih =>
+    intro acc rs done out h hu hs
+    rw [specSeqFrom] at hs
+    cases h1 : specTail cv t rs m with
+    | none => rw [h1] at hs; cases hs
+    | some p =>
+      obtain ⟨rs1, m1⟩ := p
+      rw [h1] at hs
+      simp only at hs
+      cases h2 : specSeqFrom cv t rs1 rest with
+      | none => rw [h2] at hs; cases hs
+      | some out1 =>
+        rw [h2] at hs
+        simp only [Option.some.injEq] at hs
+        obtain ⟨g1, g2⟩ := tail_refines cv t hT acc rs rs1 m m1 h (hu m (by simp)) h1
+        simp only [List.foldl_cons]
+        rw [ih _ rs1 _ out1 g2 (fun m' hm' => hu m' (by simp [hm'])) h2, g1, ← hs]
+        simp
+
+/-- **the refinement theorem**: outside the class of KF-C05-2, wherever the specification determines the expansion
+of a sequence of messages, the model of the decoder computes exactly that — whatever the arithmetic `cv` -/
+theorem decodeSeq_refines (cv : CV) (t : Table) (hT : TableOK t) (ms out : List Message)
+    (hk : seedsOtherUnit t ms = false) (hs : specSeq cv t ms = some out) : decodeSeq cv t true ms = out := by
+  unfold decodeSeq
+  have := seq_refines cv t hT ms [] [] [] out (accRel_nil t) (sameUnit_of t ms hk) hs
+  simpa using this
+
 end Fit.ExpandSpec
